@@ -515,9 +515,9 @@ pub fn instantiate(kind: OpKind, pfx: &str) -> OpInst {
       (
         // adapter: every bundle is flattened, items labelled with the
         // bundle's ordinal and its length (so bundle boundaries are compared)
-        Box::new(move |o: Obs| observables::defer(move || {
+        Box::new(move |o: Obs| { let op = o.buffer_with_count(n); observables::defer(move || {
           let ctr = Arc::new(Mutex::new(0i32));
-          o.buffer_with_count(n).flat_map(move |v: Vec<Sym>| {
+          op.flat_map(move |v: Vec<Sym>| {
             let b = {
               let mut c = ctr.lock().unwrap();
               *c += 1;
@@ -526,7 +526,7 @@ pub fn instantiate(kind: OpKind, pfx: &str) -> OpInst {
             let l = v.len() as i32;
             observables::from_iter(v.into_iter().map(move |x| x.with_tag(b * 10 + l)))
           })
-        })),
+        }) }),
         Box::new(move |s: RStream| {
           let mut items = vec![];
           let full = s.items.len() / n;
@@ -547,9 +547,9 @@ pub fn instantiate(kind: OpKind, pfx: &str) -> OpInst {
       let n = sym::choose(&format!("{}.n", pfx), 4) + 1;
       label = format!("window_with_count({})", n);
       (
-        Box::new(move |o: Obs| observables::defer(move || {
+        Box::new(move |o: Obs| { let op = o.window_with_count(n); observables::defer(move || {
           let ctr = Arc::new(Mutex::new(0i32));
-          o.window_with_count(n).flat_map(move |w: Obs| {
+          op.flat_map(move |w: Obs| {
             let b = {
               let mut c = ctr.lock().unwrap();
               *c += 1;
@@ -557,7 +557,7 @@ pub fn instantiate(kind: OpKind, pfx: &str) -> OpInst {
             };
             w.map(move |x: Sym| x.with_tag(b))
           })
-        })),
+        }) }),
         Box::new(move |s: RStream| RStream {
           items: s.items.iter().enumerate().map(|(i, x)| x.clone().with_tag((i / n) as i32 + 1)).collect(),
           end: s.end,
@@ -570,10 +570,10 @@ pub fn instantiate(kind: OpKind, pfx: &str) -> OpInst {
       (
         Box::new(move |o: Obs| {
           let c = c.clone();
+          let op = o.group_by(move |x: Sym| c.sym_lt(&x, "key"));
           observables::defer(move || {
-          let c = c.clone();
           let ctr = Arc::new(Mutex::new(0i32));
-          o.group_by(move |x: Sym| c.sym_lt(&x, "key")).flat_map(move |g: Obs| {
+          op.flat_map(move |g: Obs| {
             let b = {
               let mut c = ctr.lock().unwrap();
               *c += 1;
